@@ -247,6 +247,9 @@ func newNode() *topicNode {
 
 func (node *topicNode) addClients(ans map[string]byte) {
 	for client, qos := range node.clients {
-		ans[client] = qos
+		// a client may match with several filters, the maximum QoS counts.
+		if old, ok := ans[client]; !ok || qos > old {
+			ans[client] = qos
+		}
 	}
 }
